@@ -830,6 +830,7 @@ func c18ProgramTie(c *Ctx) {
 	drivers = append(drivers, c18ProgDrivers5()...)
 	drivers = append(drivers, c18ProgDrivers6()...)
 	drivers = append(drivers, c18ProgDrivers7()...)
+	drivers = append(drivers, c18ProgDrivers8()...)
 	for _, d := range drivers {
 		c18ProgEnvKnown[d.name] = true
 	}
